@@ -400,6 +400,13 @@ def run_layers(ctx, spec):
             lays = [l.name for l in geo.layerlist[1:]]
             subsets = [list(s) for r in range(1, len(lays) + 1) for s in itertools.combinations(lays, r)]
             sel = rng.choice(subsets)
+        if desc.get('kind') != 'shipped' and rng.random() < 0.3:
+            # layer centres as a geometry file may give them: anywhere inside the layer, not necessarily half-way up
+            fr = rng.choice([0.3, 0.4, 0.6, 0.7])
+            for lay in geo.layerlist[1:]:
+                lay.centre = lay.bottom + fr * (lay.top - lay.bottom)
+            desc['layer_centre_fraction'] = fr
+            ctx.count('layer_refinements_with_centres_off_the_middle')
         f = rng.randint(2, 4)
         if geo.convention == 0:
             # two-digit layer names: a request for more than 99 layers is answered with the naming error (property C17)
